@@ -291,11 +291,17 @@ func header(prefix string, doc int) []string {
 // buildFile assembles a file; snipAt[i] is the index of the snippet line i
 // (1-based line i+1) belongs to, relAt[i] its line inside the snippet, -1 for
 // header and separator lines.
-func buildFile(prefix string, doc int, snips []int) (lines []string, snipAt, relAt []int) {
+func buildFile(prefix string, doc int, snips []int, lineDir string) (lines []string, snipAt, relAt []int) {
 	add := func(l string, s, r int) {
 		lines = append(lines, l)
 		snipAt = append(snipAt, s)
 		relAt = append(relAt, r)
+	}
+	if lineDir != "" {
+		// the whole file is displayed under another name and numbering (as yacc output or the
+		// analysed twin of a cgo file is); the oracle maps reported positions back (see staticcheck)
+		add("//line "+lineDir+":1000", -1, -1)
+		add("", -1, -1)
 	}
 	for _, l := range header(prefix, doc) {
 		add(l, -1, -1)
@@ -395,9 +401,9 @@ func candidates(src string, hot map[int][]string) ([]cand, error) {
 		return nil, err
 	}
 	lines := strings.Split(src, "\n")
-	line := func(p token.Pos) int { return fset.Position(p).Line }
+	line := func(p token.Pos) int { return fset.PositionFor(p, false).Line }
 	startsLine := func(p token.Pos) bool {
-		pos := fset.Position(p)
+		pos := fset.PositionFor(p, false)
 		return strings.TrimSpace(lines[pos.Line-1][:pos.Column-1]) == ""
 	}
 	var cs []cand
@@ -701,6 +707,7 @@ func genCase(rt *rapid.T, hints map[int][]hint, nvariants int) (*Case, error) {
 	if twin {
 		docB = 0 // identical line numbers in both files
 	}
+	lineDirs := rng(rt, "linedirective", 0, 3) == 0
 	var gfs []*genFile
 	for i, spec := range []struct {
 		name, prefix string
@@ -708,7 +715,11 @@ func genCase(rt *rapid.T, hints map[int][]hint, nvariants int) (*Case, error) {
 		sn           []int
 	}{{"a.go", "A", 0, snA}, {"b.go", "B", docB, snB}} {
 		_ = i
-		lines, snipAt, relAt := buildFile(spec.prefix, spec.doc, spec.sn)
+		lineDir := ""
+		if lineDirs {
+			lineDir = "zzline_" + spec.name
+		}
+		lines, snipAt, relAt := buildFile(spec.prefix, spec.doc, spec.sn, lineDir)
 		gf := &genFile{name: spec.name, lines: lines, hot: map[int][]string{}}
 		var codes []string
 		for li := range lines {
@@ -728,6 +739,16 @@ func genCase(rt *rapid.T, hints map[int][]hint, nvariants int) (*Case, error) {
 		cs, err := candidates(src, gf.hot)
 		if err != nil {
 			return nil, err
+		}
+		if lineDirs {
+			// nothing is placed above or on the //line comment: a directive there would be displayed in another file than the code
+			var keep []cand
+			for _, cd := range cs {
+				if cd.Line > 2 {
+					keep = append(keep, cd)
+				}
+			}
+			cs = keep
 		}
 		gf.cands = cs
 		var pl []string
@@ -861,6 +882,9 @@ func genCase(rt *rapid.T, hints map[int][]hint, nvariants int) (*Case, error) {
 				sites = hotSites
 			}
 			cd = pick(rt, "site", sites)
+		}
+		if lineDirs && cd.Line <= 2 {
+			cd.Line = 3
 		}
 		d.Place, d.Line, d.Trailing = cd.Place, cd.Line, cd.Trailing
 		if !d.Trailing {
